@@ -286,11 +286,65 @@ def doTrack (f : List String) : String :=
     "r=" ++ ",".intercalate r ++ "\tflags=" ++ ",".intercalate rf
   | _ => "BADREQ"
 
+def cls {α} : Res α → String
+  | .ok _ => "o"
+  | .error (.err _) => "e"
+  | .error (.panic _) => "p"
+
+/-- `vars <table> <lm> <text> <chain> <spaces> <callform> <kmax>`: variable list and the outcome
+    class of every evaluation entry point for every slice length 0..kmax -/
+def doVars (f : List String) : String :=
+  match f with
+  | [tb, lm, tx, ch, sp, cf, km] =>
+    let t := parseTable tb
+    let text := unhex tx
+    let I := symInterpT t
+    let kmax := parseNat km
+    let fl := Flat.parse I t (lmOf lm) text
+    let dp := Deep.parse I t (lmOf lm) text
+    let modelPart := match fl, dp with
+      | .ok f, .ok d =>
+        let n := f.vars.length
+        let exact := f.eval I (symVars n)
+        let ar := (List.range (kmax + 1)).map (fun k =>
+          let vs := symVars k
+          let rel := f.evalRelaxed I vs
+          let drel := d.evalRelaxed I vs
+          let same := fun (r : Res Sym) => match r, exact with
+            | .ok a, .ok b => if a == b then "=" else "#"
+            | _, _ => "-"
+          toString k ++ ":" ++ cls (f.eval I vs) ++ cls rel ++ same rel ++ cls (f.evalConsuming I vs) ++
+            cls (d.eval I vs) ++ cls drel ++ same drel)
+        "vars=" ++ showStrs f.vars ++ "\tdvars=" ++ showStrs d.vars ++ "\tar=" ++ ",".intercalate ar
+      | .error e, _ => "vars=" ++ showFail e
+      | _, .error e => "vars=" ++ showFail e
+    let specPart :=
+      if ch == "-" then "\tsvars=-" else
+      match parseChain ((splitOn ch " ").filter (· != "")) with
+      | none => "\tsvars=BADCHAIN"
+      | some (c, _) =>
+        let (rendered, _) := c.render t { callForm := cf == "1" } (parseNats sp)
+        let vars := c.vars
+        let n := vars.length
+        let toksOk := match tokenize I t (lmOf lm) text with
+          | .ok tk => decide (tk = c.toks I)
+          | .error _ => false
+        let sar := (List.range (kmax + 1)).map (fun k =>
+          let strict := if k == n then "o" else "e"
+          let relaxed := if k ≥ n then "o=" else "e-"
+          toString k ++ ":" ++ strict ++ relaxed ++ strict ++ strict ++ relaxed)
+        "\tsvars=" ++ showStrs vars ++ "\tsar=" ++ ",".intercalate sar ++
+        "\trender=" ++ (if rendered == text then "ok" else "DIFF:" ++ hex rendered) ++
+        "\ttoks=" ++ (if toksOk then "ok" else "DIFF")
+    modelPart ++ specPart
+  | _ => "BADREQ"
+
 def handle (line : String) : String :=
   match splitOn line "\t" with
   | "lex" :: rest => doLex rest
   | "flat" :: rest => doFlat rest
   | "forms" :: rest => doForms rest
+  | "vars" :: rest => doVars rest
   | "order" :: rest => doOrder rest
   | "track" :: rest => doTrack rest
   | _ => "BADKIND"
